@@ -9,8 +9,8 @@ CHECKS = {
    design="5/C10"),
 
  "C18": dict(
-   text="Bounded model checking of the real subprocess code from go/ssa. (1) The stream-to-logger adapter (logStreamer.Write): a stream of n<=5 (thorough 7) fully symbolic bytes written in 2 (and 3) chunks at every offset; z3 decides, for all byte values, that Write returns (len,nil), that the concatenated messages equal the stream minus newlines, that streams are not mixed, and that messages are exactly the non-empty lines -- the last fails inside the recorded known-finding region (chunk boundary strictly inside a line) and is proved outside it. (2) Whole Execute / Output runs (real Execute, monitoring goroutine, messaging, streamers, process-error conversion, combined + string loggers) over a scripted child of 0..2 (thorough 3) writes to either stream in 4 shapes, exit status 0 / 1 / {2,126,127,255} / death by signal, context live or already cancelled: Execute returns nil exactly for status 0 and a context kind when cancelled; the start message is logged first, exactly one success / failure message last and on the right stream, the child's non-empty lines in between, complete and in order per stream; Output returns exactly those lines.",
-   note="(*os/exec.Cmd).Run is replaced under the engine by a harness function that plays the child's script into the command's real writers; natively the same script is a real `sh -c` child and sampled paths (12 quick / 48 thorough) are compared against it, so real pipes and exit statuses are exercised on samples only. Cancellation while the child runs, process groups (C05) and volumes beyond the bound are outside. logs.Loggers is a recording double.",
+   text="Bounded model checking of the real subprocess code from go/ssa. (1) The stream-to-logger adapter (logStreamer.Write): a stream of n<=5 (thorough 7) fully symbolic bytes written in 2 (and 3) chunks at every offset; z3 decides, for all byte values, that Write returns (len,nil), that the concatenated messages equal the stream minus newlines, that streams are not mixed, and that messages are exactly the non-empty lines -- the last fails inside the recorded known-finding region (chunk boundary strictly inside a line) and is proved outside it. (2) Whole Execute / Output runs (real Execute, monitoring goroutine, messaging, streamers, process-error conversion, combined + string loggers) over a scripted child of 0..2 (thorough 3) writes to either stream in 4 shapes, exit status 0 / 1 / {2,126,127,255} / death by signal, context live or already cancelled: Execute returns nil exactly for status 0 and a context kind when cancelled; the start message is logged first, exactly one success / failure message last and on the right stream, the child's non-empty lines in between, complete and in order per stream; Output returns exactly those lines; a context cancelled while the child runs (explored with one preemption between Execute and the monitoring goroutine) yields an error, the child's lines and exactly one end message, the failure message.",
+   note="(*os/exec.Cmd).Run is replaced under the engine by a harness function that plays the child's script into the command's real writers; natively the same script is a real `sh -c` child and sampled paths (12 quick / 48 thorough) are compared against it, so real pipes and exit statuses are exercised on samples only. Process groups and what happens to the child's descendants (C05), and volumes beyond the bound are outside. logs.Loggers is a recording double.",
    technique="symbolic execution of go/ssa + SMT (QF_BV) over symbolic byte strings and scripted children, native replay against real child processes",
    design="5/C18"),
  "C19": dict(
